@@ -113,6 +113,7 @@ int main(int argc, char** argv) {
                 if (t == "pip") cons.push_back(Constraint::PointInPlane(b1, axisOf(k["n"]), k["h"].dbl(), mb[(int)k["b2"].num()], vec(k["st"])));
                 else if (t == "cang") cons.push_back(Constraint::ConstantAngle(b1, axisOf(k["a1"]), mb[(int)k["b2"].num()], axisOf(k["a2"]), std::acos(k["cosn"].dbl() / std::pow(5.0, k["cose"].dbl()))));
                 else if (t == "cspeed") cons.push_back(Constraint::ConstantSpeed(b1, MobilizerUIndex((int)k["k"].num() - 1), k["s"].dbl()));
+                else if (t == "noslip") cons.push_back(Constraint::NoSlip1D(b1, vec(k["st"]), axisOf(k["n"]), mb[(int)k["b2"].num()], mb[(int)k["b3"].num()]));
                 else if (t == "ccoord") cons.push_back(Constraint::ConstantCoordinate(b1, MobilizerQIndex((int)k["k"].num() - 1), k["s"].dbl()));
                 else if (t == "cacc") cons.push_back(Constraint::ConstantAcceleration(b1, MobilizerUIndex((int)k["k"].num() - 1), k["s"].dbl()));
                 else if (t == "rod") cons.push_back(Constraint::Rod(b1, vec(k["st"]), mb[(int)k["b2"].num()], vec(k["st2"]), k["d"].dbl()));
